@@ -7,6 +7,8 @@ the arithmetic (`Num α`), in particular the executable term instance and the re
 The analytic statements are for `α = ℝ` (`Real.log`, `Real.exp`).
 -/
 import GlotaranProofs.Lemmas.C11
+import GlotaranProofs.Lemmas.C11Gen
+import GlotaranProofs.Lemmas.C11More
 namespace Glotaran.C11
 
 variable {α : Type}
@@ -382,5 +384,316 @@ theorem history_maps_back (ev : Eval ℝ) (ps : List (Parameter ℝ)) (it : Ext 
     simpa [selected_false] using this
   rw [hl, hv] at this
   simpa [setFromHistory] using this
+
+/-! ### the source text is the model
+
+`GlotaranModel/Generated/C11Fns.lean` is regenerated on every run from parameter.py / parameters.py by
+the `ast` → Lean translator (harness/props/_c11_gen.py).  Each generated definition equals the
+hand-written definition all theorems above are about — for every input, every number type and every
+interpretation of its arithmetic.  A semantic edit of one of these functions changes the generated
+definition and the corresponding theorem no longer compiles. -/
+
+/-- `_log_value` (with its guard and the constants `1`, `1e-10`) is `logValue` -/
+theorem generated_eq_model_log_value [Num α] (v : Ext α) : Gen.log_value v = logValue v :=
+  gen_log_value_eq v
+
+example : Gen.log_value (.fin (.q 1) : Ext Term) = logValue (.fin (.q 1)) ∧
+    Gen.log_value (.pinf : Ext Term) = .pinf := ⟨rfl, rfl⟩
+
+/-- `Parameter.get_value_and_bounds_for_optimization` is `toOpt` -/
+theorem generated_eq_model_toOpt [Num α] (p : Parameter α) :
+    Gen.get_value_and_bounds_for_optimization p = ((toOpt p).value, (toOpt p).lower, (toOpt p).upper) :=
+  gen_toOpt_eq p
+
+example : (Gen.get_value_and_bounds_for_optimization
+    (⟨"k", .fin (.q 3), .fin (.q 2), .pinf, true, true, none, .nan⟩ : Parameter Term)).2.2 = .pinf := rfl
+
+/-- `Parameter.set_value_from_optimization` is `setFromOpt` -/
+theorem generated_eq_model_setFromOpt [Num α] (p : Parameter α) (x : Ext α) :
+    Gen.set_value_from_optimization p x = p.setFromOpt x :=
+  gen_setFromOpt_eq p x
+
+example : (Gen.set_value_from_optimization
+    (⟨"k", .fin (.q 3), .ninf, .pinf, true, true, none, .nan⟩ : Parameter Term) .ninf).value = .fin (.q 0) := rfl
+
+/-- the validator `set_transformed_expression` (run by the constructor after the attributes are
+    assigned, and again by every assignment to `expression`) is `setExpr`: a truthy expression — not
+    `None`, not the empty string — forces `vary = False` -/
+theorem generated_eq_model_setExpr (p : Parameter α) (e : Option String) :
+    Gen.set_transformed_expression { p with expr := e } () e = Parameter.setExpr p e := by
+  cases e with
+  | none => simp [Gen.set_transformed_expression, Py.truthy, Parameter.setExpr]
+  | some s =>
+    by_cases hs : s = "" <;> simp [Gen.set_transformed_expression, Py.truthy, Parameter.setExpr, hs]
+
+example : (Gen.set_transformed_expression
+    (⟨"e", .fin (.q 0), .ninf, .pinf, false, true, some "$k", .nan⟩ : Parameter Term) () (some "$k")).vary = false := rfl
+
+/-- `Parameters.get_label_value_and_bounds_arrays`: the expression update, the selection predicate
+    `not exclude_non_vary or parameter.vary`, the loop with its four `append`s and the returned tuple
+    are `arrays` (and the parameter set is left as `updateExpr` leaves it) -/
+theorem generated_eq_model_arrays [Num α] (ev : Eval α) (ps : List (Parameter α)) (excl : Bool) :
+    Gen.get_label_value_and_bounds_arrays ev ps excl = (updateExpr ev ps, (arrays ev excl ps).tuple) := by
+  have h := gen_arrays_fold excl (updateExpr ev ps) (⟨[], [], [], []⟩ : Arrays α)
+  simp only [Arrays.tuple] at h
+  simp only [Gen.get_label_value_and_bounds_arrays, Py.asarray, arrays, Arrays.tuple, h]
+
+example : (Gen.get_label_value_and_bounds_arrays (fun _ _ => .nan)
+    [(⟨"b", .fin (.q 2), .ninf, .pinf, true, true, none, .nan⟩ : Parameter Term),
+     ⟨"f", .fin (.q 5), .ninf, .pinf, false, false, none, .nan⟩,
+     ⟨"a", .fin (.q 3), .fin (.q 1), .pinf, false, true, none, .nan⟩] true).2.1 = ["b", "a"] := by
+  decide
+
+/-- `Parameters.set_from_label_and_value_arrays`: the length check, the loop over `zip(labels, values)`
+    with `self.get(label)` raising on an unknown label (earlier pairs already set), the final
+    expression update — are `setFromArrays`, outcome included -/
+theorem generated_eq_model_set [Num α] (ev : Eval α) (ps : List (Parameter α)) (labels : List String)
+    (xs : List (Ext α)) :
+    Gen.set_from_label_and_value_arrays ev ps labels xs =
+      ((setFromArrays ev ps labels xs).1, excOfStatus (setFromArrays ev ps labels xs).2) := by
+  simp only [Gen.set_from_label_and_value_arrays, setFromArrays, gen_set_fold]
+  by_cases hlen : labels.length = xs.length
+  · simp only [hlen, ne_eq, not_true_eq_false, decide_false, if_false, Bool.false_eq_true]
+    generalize setLoop ps (labels.zip xs) = r
+    obtain ⟨ps', st⟩ := r
+    cases st <;> simp [excOfStatus]
+  · simp [hlen, excOfStatus]
+
+example : (Gen.set_from_label_and_value_arrays (fun _ _ => .nan)
+    [(⟨"k", .fin (.q 2), .ninf, .pinf, false, true, none, .nan⟩ : Parameter Term)] ["k", "zz"]
+      [.fin (.q 1), .fin (.q 1)]).2 = some ⟨"ParameterNotFoundException", ["zz"]⟩ := by
+  decide
+
+/-! ### look-up by label -/
+
+/-- `Parameters.has` / `Parameters.get` as written in the source are the model's look-ups
+    (`get` raising `ParameterNotFoundException(label)` where the model answers `none`) -/
+theorem generated_eq_model_has_get (ps : List (Parameter α)) (l : String) :
+    Gen.Parameters_has ps l = hasLabel ps l ∧
+    Gen.Parameters_get ps l =
+      (match getLabel ps l with
+       | some p => .ok p
+       | none => .error ⟨"ParameterNotFoundException", [l]⟩) := ⟨rfl, rfl⟩
+
+/-- **Look-up is exact**: `has` is true for the declared full labels and for nothing else (no group
+    path, no prefix, no short label); `get` answers a parameter carrying exactly that label, fails
+    exactly where `has` is false, and with unique labels returns each parameter under its own label. -/
+theorem lookup_exact (ps : List (Parameter α)) (l : String) :
+    (hasLabel ps l = true ↔ l ∈ ps.map (·.label)) ∧
+    (getLabel ps l = none ↔ hasLabel ps l = false) ∧
+    (∀ p, getLabel ps l = some p → p ∈ ps ∧ p.label = l) ∧
+    ((ps.map (·.label)).Nodup → ∀ p ∈ ps, getLabel ps p.label = some p) := by
+  refine ⟨?_, ?_, ?_, fun hN p hp => getLabel_of_nodup ps hN p hp⟩
+  · simp [hasLabel]
+  · simp [getLabel, hasLabel]
+  · intro p hp
+    refine ⟨List.mem_of_find?_eq_some hp, ?_⟩
+    have := List.find?_some hp
+    simpa using this
+
+/-- a group path is not a label -/
+example : hasLabel [(⟨"rates.k1", .fin (.q 1), .ninf, .pinf, false, true, none, .nan⟩ : Parameter Term)] "rates" = false ∧
+    hasLabel [(⟨"rates.k1", .fin (.q 1), .ninf, .pinf, false, true, none, .nan⟩ : Parameter Term)] "rates.k1" = true ∧
+    (getLabel [(⟨"rates.k1", .fin (.q 1), .ninf, .pinf, false, true, none, .nan⟩ : Parameter Term)] "k1").isNone = true := by
+  decide
+
+/-! ### the constructor validates no ordering; what reaches the optimiser -/
+
+/-- **Nothing about `minimum ≤ value ≤ maximum` (or `minimum ≤ maximum`, or the sign of a non-negative
+    parameter) is checked or repaired by the constructor, and a start value outside the box is handed
+    to the optimiser exactly as declared** (plain parameter: unchanged, next to the unchanged bounds).
+    scipy then refuses it (`x0 is infeasible` → `InitialParameterError`, no evaluation, no result —
+    observed by the harness on every run); nothing is clipped or transported into the box. -/
+theorem start_value_handed_over_unvalidated [Num α] (label : String) (v lo hi : Ext α) (nn vy : Bool)
+    (e : Option String) :
+    let p := Parameter.create label v lo hi nn vy e
+    p.value = v ∧ p.min = lo ∧ p.max = hi ∧ p.nonNeg = nn ∧
+      (nn = false → toOpt p = ⟨v, lo, hi⟩) ∧
+      (nn = true → toOpt p = ⟨logValue v, logValue lo, logValue hi⟩) := by
+  intro p
+  have h : p.value = v ∧ p.min = lo ∧ p.max = hi ∧ p.nonNeg = nn := by
+    cases e with
+    | none => exact ⟨rfl, rfl, rfl, rfl⟩
+    | some s =>
+      by_cases hs : s = ""
+      · subst hs; exact ⟨rfl, rfl, rfl, rfl⟩
+      · simp [p, Parameter.create, Parameter.setExpr, hs]
+  refine ⟨h.1, h.2.1, h.2.2.1, h.2.2.2, ?_, ?_⟩
+  · intro hn; simp [toOpt, h.1, h.2.1, h.2.2.1, h.2.2.2, hn]
+  · intro hn; simp [toOpt, h.1, h.2.1, h.2.2.1, h.2.2.2, hn]
+
+/-- value 9 outside [1, 5], and a reversed box: both accepted and handed over -/
+example : toOpt (Parameter.create "a" (.fin (.q 9)) (.fin (.q 5)) (.fin (.q 1)) false true none : Parameter Term) =
+    ⟨.fin (.q 9), .fin (.q 5), .fin (.q 1)⟩ := rfl
+
+/-- **The start of a non-negative parameter is feasible for the optimiser exactly when it lies in the
+    declared box** (positive values and bounds other than 1; at 1 the guard shifts by 1e-10). -/
+theorem start_feasible_iff (p : Parameter ℝ) (v lo hi : ℝ) (hn : p.nonNeg = true)
+    (hv : p.value = .fin v) (hlo : p.min = .fin lo) (hhi : p.max = .fin hi)
+    (pv : 0 < v) (plo : 0 < lo) (phi : 0 < hi) (nv : v ≠ 1) (nlo : lo ≠ 1) (nhi : hi ≠ 1) :
+    (Ext.le (toOpt p).lower (toOpt p).value ∧ Ext.le (toOpt p).value (toOpt p).upper) ↔ (lo ≤ v ∧ v ≤ hi) := by
+  simp only [toOpt, hn, if_true, hv, hlo, hhi, logValue, logFin_real, nv, nlo, nhi, if_false, Ext.le]
+  exact (bounds_transport lo v hi plo pv phi).symm
+
+example : Ext.le (toOpt (⟨"k", .fin 3, .fin 2, .fin 5, true, true, none, .nan⟩ : Parameter ℝ)).lower
+    (toOpt (⟨"k", .fin 3, .fin 2, .fin 5, true, true, none, .nan⟩ : Parameter ℝ)).value :=
+  ((start_feasible_iff ⟨"k", .fin 3, .fin 2, .fin 5, true, true, none, .nan⟩ 3 2 5 rfl rfl rfl rfl
+    (by norm_num) (by norm_num) (by norm_num) (by norm_num) (by norm_num) (by norm_num)).mpr
+    ⟨by norm_num, by norm_num⟩).1
+
+/-! ### copies, dictionaries, equality -/
+
+/-- **A copy is always well formed**: whatever was assigned to `vary` after construction, in a copy
+    (and `Optimizer` works on a copy of the scheme's parameters) every parameter with an expression has
+    `vary = false` again — with `free_excludes_fixed_and_expr` no expression parameter of any
+    parameter set reaches the optimiser.  Labels and their order are kept. -/
+theorem copy_wellFormed (ev : Eval α) (ps : List (Parameter α)) :
+    WellFormed (copyParams ev ps) ∧ (copyParams ev ps).map (·.label) = ps.map (·.label) := by
+  constructor
+  · apply wellFormed_of_map_eq _ _ (updateExpr_map_wfdata ev _)
+    intro p hp e he hne
+    obtain ⟨q, _, rfl⟩ := List.mem_map.mp hp
+    exact Parameter.copy_wf q e he hne
+  · have h := congrArg (List.map (fun (t : String × Bool × Option String) => t.1)) (updateExpr_map_wfdata ev (ps.map Parameter.copy))
+    simp only [List.map_map] at h
+    simp only [copyParams]
+    refine Eq.trans (by simpa [Function.comp_def] using h) ?_
+    apply List.map_congr_left
+    intro p _
+    exact Parameter.copy_label p
+
+example : ((copyParams (fun _ _ => .fin (.q 9))
+    [(⟨"e", .fin (.q 0), .ninf, .pinf, false, true, some "$k", .nan⟩ : Parameter Term)]).map (·.vary)) = [false] := by
+  decide
+
+/-- **`copy()` and `to_parameter_dict_list` → `from_parameter_dict_list` are the identity** on a well
+    formed parameter set whose expression values are up to date (otherwise they are the expression
+    update of the normalised set: `copyParams`). -/
+theorem copy_and_dict_list_roundtrip (ev : Eval α) (ps : List (Parameter α)) (hW : WellFormed ps)
+    (hU : updateExpr ev ps = ps) :
+    copyParams ev ps = ps ∧ fromDictList ev (toDictList ps) = ps := by
+  simp [copyParams, fromDictList, toDictList, map_copy_of_wf ps hW, hU]
+
+example : copyParams (fun _ _ => .nan)
+    [(⟨"k", .fin (.q 2), .ninf, .pinf, true, false, none, .fin (.q 1)⟩ : Parameter Term)] =
+    [⟨"k", .fin (.q 2), .ninf, .pinf, true, false, none, .fin (.q 1)⟩] := by decide
+
+/-- …and not the identity when `vary` was re-enabled on an expression parameter (kept visible) -/
+theorem copy_identity_counterexample :
+    copyParams (fun _ _ => .fin (.q 0))
+      [(⟨"e", .fin (.q 0), .ninf, .pinf, false, true, some "$k", .nan⟩ : Parameter Term)] ≠
+      [⟨"e", .fin (.q 0), .ninf, .pinf, false, true, some "$k", .nan⟩] := by
+  decide
+
+/-- **`==` on parameter sets**: reflexive (also with `nan` values and errors), and sound — equal sets
+    hold, under every label, parameters that agree in all eight attributes.  (It ignores the
+    declaration order: see the example.) -/
+theorem params_eq_spec [DecidableEq α] (ps qs : List (Parameter α)) :
+    paramsEq ps ps = true ∧
+    (paramsEq ps qs = true → ∀ p ∈ ps, ∃ q ∈ qs, q.label = p.label ∧
+      (getLabel ps p.label).isSome ∧ getLabel qs p.label = getLabel ps p.label) := by
+  constructor
+  · simp only [paramsEq, Bool.and_eq_true, List.all_eq_true]
+    refine ⟨List.isPerm_iff.mpr (List.Perm.refl _), ?_⟩
+    intro l hl
+    obtain ⟨p, hp, _, _⟩ := getLabel_isSome_of_mem ps l hl
+    simp [hp, deepEquals_refl]
+  · intro h p hp
+    simp only [paramsEq, Bool.and_eq_true, List.all_eq_true] at h
+    have hl : p.label ∈ ps.map (·.label) := List.mem_map.mpr ⟨p, hp, rfl⟩
+    have := h.2 _ hl
+    cases h1 : getLabel ps p.label with
+    | none => simp [h1] at this
+    | some p1 =>
+      cases h2 : getLabel qs p.label with
+      | none => simp [h1, h2] at this
+      | some q1 =>
+        simp only [h1, h2] at this
+        have e := deepEquals_eq p1 q1 this
+        subst e
+        refine ⟨p1, List.mem_of_find?_eq_some h2, ?_, rfl, rfl⟩
+        have := List.find?_some h2
+        simpa using this
+
+/-- equality does not see the declaration order -/
+example : paramsEq
+    [(⟨"b", .fin (.q 2), .ninf, .pinf, false, true, none, .nan⟩ : Parameter Term), ⟨"a", .nan, .ninf, .pinf, false, true, none, .nan⟩]
+    [⟨"a", .nan, .ninf, .pinf, false, true, none, .nan⟩, ⟨"b", .fin (.q 2), .ninf, .pinf, false, true, none, .nan⟩] = true := by
+  decide
+
+/-! ### in which space a standard error is reported -/
+
+/-- **Standard errors are reported in parameter space.**  The covariance matrix and the Jacobian are in
+    optimiser space (`x = log value` for a non-negative parameter); the error `err` of `x` is mapped
+    back before it is stored: it becomes the distance from the value to the image of `x + err`, i.e.
+    the upper deviation `exp(log v + err) − v`, capped at `|v|` (100 %) once `err ≥ |log v|`.  A plain
+    parameter gets `err` itself.  (The property asks for the *ordering* only: `labels_index_everything`.) -/
+theorem stderr_space (p : Parameter ℝ) (err : ℝ) :
+    (p.nonNeg = false → seValue p err = .fin err) ∧
+    (∀ v, p.nonNeg = true → p.value = .fin v → 0 < v → v ≠ 1 →
+      seValue p err = .fin (if err < |Real.log v| then Real.exp (Real.log v + err) - v else v)) := by
+  constructor
+  · intro hn; simp [seValue, hn]
+  · intro v hn hv hpos hne
+    simp only [seValue, hn, if_true, hv, logFin_real, hne, if_false, Num.ifLt, Num.abs, Num.mul, Num.sub,
+      Num.exp, Num.ofRat]
+    congr 1
+    split
+    · rw [Real.exp_add, Real.exp_log hpos]; push_cast; ring
+    · exact abs_of_pos hpos
+
+example : seValue (⟨"k", .fin 2, .ninf, .pinf, true, true, none, .nan⟩ : Parameter ℝ) 0 = .fin 0 := by
+  have := (stderr_space ⟨"k", .fin 2, .ninf, .pinf, true, true, none, .nan⟩ 0).2 2 rfl rfl (by norm_num) (by norm_num)
+  rw [this]
+  have : (0 : ℝ) < |Real.log 2| := abs_pos.mpr (ne_of_gt (Real.log_pos (by norm_num)))
+  simp [this, Real.exp_log]
+
+/-! ### access to a history -/
+
+/-- **What a history built by `append` holds and how it is read**: after the records `recs` the history
+    has that many records, record `i` (Python index `i`, and `-1` for the last) is the iteration number
+    followed by *all* parameters of the `i`-th set in declaration order and optimiser space, all sets
+    carry the labels of the columns, and the data frame (`to_dataframe` / `from_dataframe`) carries
+    exactly labels and rows. -/
+theorem history_access [Num α] (ev : Eval α) (recs : List (List (Parameter α) × Ext α)) (h : History α)
+    (hh : History.appendAll ev ⟨[], []⟩ recs = some h) :
+    h.numberOfRecords = recs.length ∧
+    (∀ (i : Nat) (r : List (Parameter α) × Ext α), recs[i]? = some r →
+      h.getParameters (i : Int) = some (r.2 :: (updateExpr ev r.1).map (fun p => (toOpt p).value)) ∧
+      h.labels = "iteration" :: r.1.map (·.label)) ∧
+    h.getParameters (-1) = (recs.getLast?).map (recordOf ev) ∧
+    History.fromDataFrame h.toDataFrame = h := by
+  obtain ⟨hr, hl, _⟩ := appendAll_spec ev recs ⟨[], []⟩ h hh
+  simp only [List.nil_append] at hr
+  refine ⟨by simp [History.numberOfRecords, hr], ?_, ?_, rfl⟩
+  · intro i r hi
+    refine ⟨?_, hl r (List.mem_of_getElem? hi)⟩
+    simp [History.getParameters, pyIndex_nat, hr, hi, recordOf]
+  · simp [History.getParameters, pyIndex_neg_one, hr, List.getLast?_map]
+
+example : (History.appendAll (fun _ _ => .nan) ⟨[], []⟩
+    [([(⟨"b", .fin (.q 2), .ninf, .pinf, false, true, none, .nan⟩ : Parameter Term)], .fin (.q 0)),
+     ([(⟨"b", .fin (.q 3), .ninf, .pinf, false, true, none, .nan⟩ : Parameter Term)], .fin (.q 1))]).map
+      (·.numberOfRecords) = some 2 := by decide
+
+/-- **Row `i` of a history maps back to the `i`-th recorded parameter set** (`set_from_history(h, i)`
+    applied to that set; over ℝ, non-negative values positive and not 1): rows are in the order of *all*
+    parameters, not of the free ones, and the first column (iteration) is skipped. -/
+theorem history_row_i_maps_back (ev : Eval ℝ) (recs : List (List (Parameter ℝ) × Ext ℝ)) (h : History ℝ)
+    (hh : History.appendAll ev ⟨[], []⟩ recs = some h) (i : Nat) (ps : List (Parameter ℝ)) (it : Ext ℝ)
+    (hi : recs[i]? = some (ps, it))
+    (hN : (ps.map (·.label)).Nodup) (hU : updateExpr ev ps = ps)
+    (hP : ∀ p ∈ ps, p.nonNeg = false ∨ ∃ v, p.value = .fin v ∧ 0 < v ∧ v ≠ 1) :
+    setFromHistoryAt ev ps h (i : Int) = some (ps, .ok) := by
+  obtain ⟨_, hrow, _, _⟩ := history_access ev recs h hh
+  obtain ⟨hg, hl⟩ := hrow i (ps, it) hi
+  have := set_get_identity_real ev false ps hN hU hP
+  rw [arrays_false_labels, arrays_false_values] at this
+  simp only [setFromHistoryAt, hg, hl, List.drop_succ_cons, List.drop_zero]
+  exact congrArg some this
+
+example : ∃ h : History ℝ, History.appendAll (fun _ _ => .nan) ⟨[], []⟩
+    [([(⟨"k", .fin 3, .ninf, .pinf, true, true, none, .nan⟩ : Parameter ℝ)], .fin 0)] = some h :=
+  ⟨_, rfl⟩
 
 end Glotaran.C11
